@@ -64,6 +64,7 @@ void _ZN7QObject11connectImplEPKS_PPvS1_S3_PN9QtPrivate15QSlotObjectBaseEN2Qt14C
 void _ZN7QObject7connectEPKS_PKcS1_S3_N2Qt14ConnectionTypeE(char *ret, char *sender, char *sig, char *recv, char *slot, uint32_t type) { vp_nconnect++; *(char**)ret = sender; }
 uint8_t _ZN7QObject14disconnectImplEPKS_PPvS1_S3_PK11QMetaObject(char *sender, char *sig, char *recv, char *slot, char *mo) { vp_ndisconnect++; return 1; }
 uint8_t _ZN7QObject10disconnectEPKS_PKcS1_S3_(char *sender, char *sig, char *recv, char *slot) { vp_ndisconnect++; return 1; }
+char* _Z13qFlagLocationPKc(char *method) { return method; }
 uint32_t vp_connect_count(void) { return vp_nconnect; }
 uint32_t vp_disconnect_count(void) { return vp_ndisconnect; }
 /* ---- qobject_cast: only the null case is decided here; anything else needs the class hierarchy (assert) ---- */
